@@ -75,7 +75,8 @@ CLAIMS = {
         text=("Props/C06.lean: hash_eq_nl - a hash join that buckets the build side by an arbitrary hash function returns exactly the nested-loop join's pairs, for every hash function (collisions, constant "
               "hashes), NULL keys never match (null_key_matches_nothing), and a LEFT join contains every probe row with unmatched ones exactly once (left_join_preserves); drain_exactly_once - the code-shaped drain of the build side (Core/Drain.lean: per-partition cursor "
               "(block, row), batches of any capacity, blocks p, p+P, ...) emits every kept row (unmatched for LEFT, all for MARK) exactly once for every partition count, batch capacity and block layout "
-              "(scanBlock_spec, loadRows_spec, drainAll_flatten by induction; the stride partition reuses C11's skipStep theorem). Tie: two key tables with controlled "
+              "(scanBlock_spec, loadRows_spec, drainAll_flatten by induction; the stride partition reuses C11's skipStep theorem); hash_eq_nl_not_distinct - hashing on an IS NOT DISTINCT FROM key (NULLs hashed like values, matched by the null-safe "
+              "comparison) equals the nested-loop join for every hash function (the join back of decorrelated subqueries since the repair of F37). Tie: two key tables with controlled "
               "duplicates/NULLs/empty sides joined with every kind (inner/left/right/cross/semi/anti) and condition shape under hash and nested-loop joins, small batch sizes and several partitions; all equal Sem.join."),
         note=TB + "hash_eq_nl is about an abstract model of the algorithm (bucket = filter by hash); the drain model follows drain.rs line by line; hash_table/{mod,scan}.rs (insertion, chain scan) are not modelled; all are tied by the differential runs only.",
         technique="Lean proof (hash join = nested-loop join for all hash functions) + join differential against Sem",
